@@ -90,7 +90,7 @@ ReadOp(st, p, op) ==
   LET s == st.src
       q == p + Len(op)
   IN IF op = "+" /\ p >= 2 /\ CharAt(s, p - 1) = " "
-     THEN Fail(st, "space-before-plus", p - 1, "")
+     THEN [st EXCEPT !.err = MkErr("space-before-plus", 0, "")]   \* the message cites no offset
      ELSE [Push(st, Tok(op, op), q) EXCEPT
              !.amb = @ \cup (IF op \in OpWords /\ q <= Len(s) /\ CharAt(s, q) \in IdChar
                              THEN {"glued-operator"} ELSE {})]
